@@ -70,6 +70,16 @@ def run(tier, replay=None):
         lint_only.add(len(hc))
         hc.append({"mode": "observe", "files": {"main.s": head + '.include "fns.s"\n', "fns.s": tail}, "base": "main.s"})
         meta.append({"spans": [], "gfile": 1, "free": True})
+        # the label of the function stays behind, its first instruction is in the included file (what is reported at
+        # a function's entry then has its label in one file and its text in another)
+        head2, tail2 = "\n".join(lines[:k + 1]) + "\n", "\n".join(lines[k + 1:]) + "\n"
+        lint_only.add(len(hc))
+        hc.append({"mode": "observe", "files": {"main.s": head2 + '.include "fns.s"\n', "fns.s": tail2}, "base": "main.s"})
+        meta.append({"spans": [], "gfile": 1, "free": True})
+    # diagnostics located at a function's entry whose label and first instruction are in different files
+    for files in corpus.ENTRY_SPLIT_FILES:
+        hc.append({"mode": "observe", "files": dict(files), "base": "main.s"})
+        meta.append({"spans": [], "gfile": 1, "free": True})
     # functions with several returns / shared tails (additional returns are rewritten by the function markup)
     for t in shared_programs(tier, out, part=4) + corpus.SHARED_PROGRAMS + [
             "main:\n    jal f\n    li a7, 10\n    ecall\nf:\n    beqz a0, L\n    ret\n.data\nL:\n    ret\n"]:
